@@ -223,6 +223,21 @@ MemberPre(s, r, c, k) ==
     /\ (s \in {"neg", "abs"} => RepFits(r, WNeg(c)))
     /\ RepFits(r, c) /\ RepFits(r, W(k)) /\ RepFits(r, MemberNew(s, c, k))
 
+\* ---- special values [time.duration.special], [time.traits.duration.values], [time.point.special] -------------
+\* zero() = Rep(0), min() = numeric_limits<Rep>::lowest(), max() = numeric_limits<Rep>::max(); time_point::min()/max()
+\* wrap duration::min()/max().  A limit travels as [m |-> wide, x |-> k] = m * 2^k (integers: k = 0; double: m odd).
+\* The largest finite double is (2^53 - 1) * 2^971 and the lowest is its negation.
+Lim(m, x) == [m |-> m, x |-> x]
+LimVal(r, which) ==
+    CASE which = "zero" -> Lim(WZero, 0)
+      [] which = "max" -> IF r = "i64" THEN Lim(WPred(P63), 0) ELSE IF r = "i32" THEN Lim(WPred(P31), 0) ELSE Lim(WPred(P53), 971)
+      [] which = "min" -> IF r = "i64" THEN Lim(N63, 0) ELSE IF r = "i32" THEN Lim(N31, 0) ELSE Lim(WNeg(WPred(P53)), 971)
+LimitsOK(ev) ==
+    /\ ev.zero = LimVal(ev.r, "zero") /\ ev.min = LimVal(ev.r, "min") /\ ev.max = LimVal(ev.r, "max")
+    /\ ev.rel = <<1, 1, 1>>                      \* min() <= zero(), zero() <= max(), min() < max()  (by the library's operators)
+    /\ (ev.r = "f64") = ("nm" \in DOMAIN ev)     \* double: -max() == min()
+    /\ ("nm" \in DOMAIN ev => ev.nm = TRUE)
+
 \* ---- the named typedefs [time.syn]: period and minimum width of the signed integer rep ----------------
 Typedefs == [nanoseconds |-> <<1, 1000000000, 64>>, microseconds |-> <<1, 1000000, 55>>, milliseconds |-> <<1, 1000, 45>>,
              seconds |-> <<1, 1, 35>>, minutes |-> <<60, 1, 29>>, hours |-> <<3600, 1, 23>>, days |-> <<86400, 1, 25>>,
